@@ -483,7 +483,9 @@ def part_macro(run, part):
     if rc != 0:
         raise RuntimeError("generator failed: " + out)
     geninfo = json.loads(out)
-    cpath = ROOT + "/corpus/macro.txt"
+    # minimised failing histories of earlier findings and seeded changes run first; they are kept per profile
+    # because the scripted values of one profile are not a pure function's values for another
+    cpath = ROOT + "/corpus/macro/%s.txt" % part["profile"]
     corpus = open(cpath).read() if os.path.exists(cpath) else ""
     text = corpus + open(gen).read()
     preds = part["preds"]
